@@ -16,7 +16,7 @@ FILES = ["solvor/cg.py", "solvor/bp.py", "solvor/utils/pricing.py"]
 FUNCTIONS = ["solvor.cg.solve_cg / _solve_cutting_stock / _solve_custom / _solve_master_lp", "solvor.bp.solve_bp / _branch_and_price / _solve_node_lp / "
              "_solve_bounded_master_lp / _round_solution / _most_fractional / _build_solution", "solvor.utils.pricing.knapsack_pricing / simplex_phase"]
 BOUNDS = {
-    "quick": "solve_cg: roll widths 6..10 with 1-3 piece sizes (14 instances), demands symbolic Ints in 0..8; custom pricing over 4 explicit column pools. "
+    "quick": "solve_cg: roll widths 6..10 with 1-3 piece sizes (14 instances), demands symbolic Ints in 0..8, plus 6 instances with 4 piece types (demands 0..4); custom pricing over 4 explicit column pools. "
              "solve_bp: 5 instances with 2-3 piece types, every demand vector with entries 0..3 (solver-enumerated), plus custom pools",
     "thorough": "widths up to 12, demands 0..16 (cg) and 0..6 (bp), 40 instances",
 }
@@ -130,6 +130,7 @@ def h_bp_custom(s, pool, initial, D):
     s.goal("bp.custom")
 
 
+INST4 = [(7, [1, 3, 6, 4]), (11, [9, 4, 2, 6]), (10, [2, 3, 4, 5]), (8, [1, 2, 3, 5]), (9, [2, 3, 4, 7]), (10, [6, 3, 1, 4]), (12, [5, 4, 3, 2, 7])]
 INST = [(10, [3, 4]), (9, [2, 3, 4]), (6, [2, 3]), (7, [2, 5]), (8, [3, 5]), (10, [4, 6]), (10, [3, 7]), (9, [4, 5]), (6, [1, 4]), (8, [3]), (7, [2, 3, 4]),
         (10, [2, 3, 5]), (9, [2, 7]), (10, [3, 4, 5])]
 POOLS = [
@@ -149,6 +150,10 @@ def items(tier, rng):
     for (W, sizes) in inst:
         out.append({"name": "cg_%d_%s" % (W, "_".join(map(str, sizes))), "harness": "h_cg", "params": {"W": W, "sizes": sizes, "D": D},
                     "max_paths": 600, "split": 4})
+    # four and five piece types (degenerate column-generation steps start to occur here), smaller demand range
+    for (W, sizes) in (INST4[:6] if q else INST4):
+        out.append({"name": "cg4_%d_%s" % (W, "_".join(map(str, sizes))), "harness": "h_cg", "params": {"W": W, "sizes": sizes, "D": 4 if q else 6},
+                    "max_paths": 800, "split": 4})
     for (W, sizes) in ([inst[0], inst[2], inst[3], inst[1], inst[4]] if q else inst):
         for vec in itertools.product(range(Db + 1), repeat=len(sizes)):
             out.append({"name": "bp_%d_%s" % (W, "_".join(map(str, sizes))), "harness": "h_bp",
